@@ -50,11 +50,84 @@ func newSource(kind string, r image.Rectangle, sub bool, rng *core.RNG) image.Im
 
 // newSourceMode: subMode 0 = whole image, 1 = inset sub-image (stride > width), 2 = full-width band
 // of a taller parent (Pix runs on into the parent's rows below). content 0 = seeded bytes,
-// 1 = runs of equal pixels, 2 = all zero bytes, 3 = all 0xFF bytes.
+// 1 = runs of equal pixels, 2 = all zero bytes, 3 = all 0xFF bytes, 5 = seeded colours, every pixel opaque.
+// subMode 3 = hand-built odd stride, 4 / 5 = bottom-right / top-left corner of a parent.
 func newSourceMode(kind string, r image.Rectangle, subMode, content int, rng *core.RNG) image.Image {
+	if subMode == 3 {
+		// hand-built: the same pixels in a buffer whose row stride is not a multiple of the pixel
+		// size (legal - the image types only promise Pix[(y-Min.Y)*Stride + (x-Min.X)*bpp])
+		img := restride(newSourceRaw(kind, r, 0, rng))
+		if content != 0 {
+			applyContent(img, content, rng)
+		}
+		return img
+	}
 	img := newSourceRaw(kind, r, subMode, rng)
 	if content != 0 {
 		applyContent(img, content, rng)
+	}
+	return img
+}
+
+// restride copies the rows of a whole image into a buffer with stride = width*bpp + bpp/2 (or + 3
+// for one-byte pixels); types without a stride are returned as they are.
+func restride(img image.Image) image.Image {
+	move := func(pix []uint8, stride, rowBytes, rows, bpp int) ([]uint8, int) {
+		extra := bpp / 2
+		if extra == 0 {
+			extra = 3
+		}
+		ns := rowBytes + extra
+		out := make([]uint8, ns*rows)
+		for i := range out {
+			out[i] = 0xA5
+		}
+		for y := 0; y < rows; y++ {
+			copy(out[y*ns:y*ns+rowBytes], pix[y*stride:y*stride+rowBytes])
+		}
+		return out, ns
+	}
+	switch m := img.(type) {
+	case *image.RGBA64:
+		c := *m
+		c.Pix, c.Stride = move(m.Pix, m.Stride, 8*m.Rect.Dx(), m.Rect.Dy(), 8)
+		return &c
+	case *image.NRGBA64:
+		c := *m
+		c.Pix, c.Stride = move(m.Pix, m.Stride, 8*m.Rect.Dx(), m.Rect.Dy(), 8)
+		return &c
+	case *image.RGBA:
+		c := *m
+		c.Pix, c.Stride = move(m.Pix, m.Stride, 4*m.Rect.Dx(), m.Rect.Dy(), 4)
+		return &c
+	case *image.NRGBA:
+		c := *m
+		c.Pix, c.Stride = move(m.Pix, m.Stride, 4*m.Rect.Dx(), m.Rect.Dy(), 4)
+		return &c
+	case *image.CMYK:
+		c := *m
+		c.Pix, c.Stride = move(m.Pix, m.Stride, 4*m.Rect.Dx(), m.Rect.Dy(), 4)
+		return &c
+	case *image.Gray16:
+		c := *m
+		c.Pix, c.Stride = move(m.Pix, m.Stride, 2*m.Rect.Dx(), m.Rect.Dy(), 2)
+		return &c
+	case *image.Alpha16:
+		c := *m
+		c.Pix, c.Stride = move(m.Pix, m.Stride, 2*m.Rect.Dx(), m.Rect.Dy(), 2)
+		return &c
+	case *image.Gray:
+		c := *m
+		c.Pix, c.Stride = move(m.Pix, m.Stride, m.Rect.Dx(), m.Rect.Dy(), 1)
+		return &c
+	case *image.Alpha:
+		c := *m
+		c.Pix, c.Stride = move(m.Pix, m.Stride, m.Rect.Dx(), m.Rect.Dy(), 1)
+		return &c
+	case *image.Paletted:
+		c := *m
+		c.Pix, c.Stride = move(m.Pix, m.Stride, m.Rect.Dx(), m.Rect.Dy(), 1)
+		return &c
 	}
 	return img
 }
@@ -120,6 +193,22 @@ func applyContent(img image.Image, content int, rng *core.RNG) {
 			}
 		}
 	}
+	if content == 5 {
+		// every pixel opaque, colours as they are (a whole-image "is opaque" test passes, the image is not uniform)
+		b := img.Bounds()
+		if d, ok := img.(draw.Image); ok {
+			for y := b.Min.Y; y < b.Max.Y; y++ {
+				for x := b.Min.X; x < b.Max.X; x++ {
+					r16, g16, b16, _ := d.At(x, y).RGBA()
+					d.Set(x, y, color.RGBA64{R: uint16(r16) | 0x0101, G: uint16(g16), B: uint16(b16) ^ uint16(x*2570), A: 0xFFFF})
+				}
+			}
+		} else if ny, ok := img.(*image.NYCbCrA); ok {
+			for i := range ny.A {
+				ny.A[i] = 0xFF
+			}
+		}
+	}
 }
 
 func newSourceRaw(kind string, r image.Rectangle, subMode int, rng *core.RNG) image.Image {
@@ -130,6 +219,10 @@ func newSourceRaw(kind string, r image.Rectangle, subMode int, rng *core.RNG) im
 		pr = image.Rect(r.Min.X-2, r.Min.Y-1, r.Max.X+3, r.Max.Y+2)
 	case 2:
 		pr = image.Rect(r.Min.X, r.Min.Y-1, r.Max.X, r.Max.Y+3)
+	case 4: // bottom-right corner of the parent: starts at x > 0 and ends with the parent's last pixel
+		pr = image.Rect(r.Min.X-2, r.Min.Y-1, r.Max.X, r.Max.Y)
+	case 5: // top-left corner of the parent: Pix starts at the first pixel, stride > width
+		pr = image.Rect(r.Min.X, r.Min.Y, r.Max.X+3, r.Max.Y+2)
 	}
 	if _, isY := ycbcrRatios[kind]; isY || kind == "NYCbCrA" {
 		// the standard library's chroma offset arithmetic truncates toward zero and
